@@ -1248,7 +1248,12 @@ class Symbolic(
       while target is not None:
         target_updates = _get_target_updates(target)
         if target._subscribes_field_updates:  # pylint: disable=protected-access
-          relative_path = update.path - target.sym_path
+          # NOTE: `target` is the container of the update or one of its
+          # ancestors, so the relative path is what follows the target's depth.
+          # (`update.path - target.sym_path` raises when a later insertion or
+          # deletion of the same batch has re-indexed `target` in its list.)
+          relative_path = utils.KeyPath(
+              update.path.keys[target.sym_path.depth:])
           target_updates[relative_path] = update
         target = target.sym_parent
 
